@@ -436,10 +436,14 @@ func heurAfterBiasCase(o *Out, r *Rng, c int) {
 	mp["function"], mp["params"] = sk.fn, heurLevelsParams(coef, mx, mn)
 	var bl []interface{}
 	onlyOmission := true
+	omissionsOnly := r.chance(0.3)
 	for i, nb := 0, r.rangeInt(1, 2); i < nb; i++ {
 		name := []string{"criteriaMixing", "criteriaConcealment", "fatigue", "preferenceReversal", "anchoring", "criteriaOmission", "criteriaOmission"}[r.Intn(7)]
 		if name == "criteriaMixing" && i > 0 {
 			name = "fatigue" // mixing after a state change is a registered C07 finding
+		}
+		if omissionsOnly {
+			name = "criteriaOmission"
 		}
 		if name != "criteriaOmission" {
 			onlyOmission = false
